@@ -216,9 +216,11 @@ class StyleProperties:
     def extract(cls, context: StyleParsingContext, xml_attrib: str):
       if xml_attrib == "auto":
 
+        # the extent of the root container: rh and rw are 1% of its height and width
+
         return styles.ExtentType(
-          height=styles.LengthType(1, styles.LengthType.Units.rh),
-          width=styles.LengthType(1, styles.LengthType.Units.rw)
+          height=styles.LengthType(100, styles.LengthType.Units.rh),
+          width=styles.LengthType(100, styles.LengthType.Units.rw)
         )
 
       s = xml_attrib.split(" ")
